@@ -108,7 +108,11 @@ def replay(scn):
         variants = [kinds]
     else:
         variants = [kinds, ["f" if (n == "x") else k for n, k in zip(i["a"]["dims"], kinds)]]
-    return replay_take(scn, variants, signature)
+    extra = []
+    if i["mode"] == "label" and i["cls"] in ("mono", "mono-embedded") and "s" not in kinds:
+        # integer axis (labels h/2, h even) sliced with bounds that may be fractional (h/2 as floats)
+        extra.append(dict(kinds=list(kinds), idx_kinds=["f" if n == "x" else k for n, k in zip(i["a"]["dims"], kinds)], mixed=True))
+    return replay_take(scn, variants, signature, extra)
 
 
 
